@@ -4,7 +4,10 @@ Models: coq/Model/C18_{Fragments,Ansi,Html,Run}.v; theorems: coq/Props/C18.v.
 Case kinds (first element of the sx case):
   1 split_lines   2 to_text/len/explode/to_formatted_text(style=)   3 ANSI(s)
   4 ANSI template % / format   5 ansi_escape + html_escape   6 HTML(s)
-  7 HTML template % / format
+  7 HTML template % / format   8 to_formatted_text over every kind of value   9 ansi_strip / ansi_zero_width
+  10 _ExplodedList   11 fragment_list_width   12 PygmentsTokens
+  13 HTML template by the values-as-data specification (Model/C18_HtmlAny.v; same implementation run as its kind-7 sibling)
+  14 ANSI(s) by the token-sequence semantics (Model/C18_AnsiSeq.v)
 """
 import itertools
 import re
@@ -21,7 +24,7 @@ ANSI_ALPHA = ["a", "\x1b", "[", "\x9b", ";", "m", "3", "1", "\x01", "\x02", "C",
 VAL_ALPHA = ["a", " ", "\x1b", "[", "\x9b", ";", "m", "3", "1", "\x01", "\x02", "C", "\xb2", "\b",
              "{", "}", "%", ":", "\xe9", "\n"]
 HTML_VAL_ALPHA = ["a", " ", "<", ">", "&", '"', "'", "=", "\x1b", "\x9b", "\x01", "\x02", "{", "}", "%",
-                  ":", ";", "/", "\n", "\xa0", "\xe9", "b", "]", "["]
+                  ":", ";", "/", "\n", "\xa0", "\xe9", "b", "]", "[", "\r"]
 BREAKOUT_ALPHA = ["'", " ", "=", "b", "g", "x", "/"]
 HTML_RAW_ALPHA = ["<", ">", "/", "b", " ", "&", ";", "a", "=", "'", '"', "#", "6"]
 HTML_SPECIAL_DOCS = ["&#65;&#x42;&#x1F600;", "&#0;", "&#x1b;", "&#xD800;", "&#x110000;", "&#X41;", "&#;", "&#x;", "&#65", "&#1114111;",
@@ -31,11 +34,14 @@ HTML_SPECIAL_VALUES = ["]]>", "]]", "a]]>b", "&#65;", "&amp;", "&lt;b&gt;", "<b>
                        "</html-root>", "<html-root>", "red' bg='blue", 'red" bg="blue', "red\xa0bold", "a\tb", "\x1b[0m", "\ufffe",
                        "%s", "{}", "{0}", "%(a)s", "&apos;", "&quot;", "x' y='z", "'/><b>", "\U0001f600", "\x7f\x85",
                        # special "[...]" style tokens: a style string containing one is treated as that token
-                       ZWE, "a" + ZWE, "x" + ZWE + "y", "[", "[]", "[ZeroWidthEscape", "[SetCursorPosition]", "[zerowidthescape]"]
+                       ZWE, "a" + ZWE, "x" + ZWE + "y", "[", "[]", "[ZeroWidthEscape", "[SetCursorPosition]", "[zerowidthescape]",
+                       # XML line-end normalisation (finding C18-F14, fixed by 44b4e9c: \\r travels as &#13;)
+                       "\r", "a\r", "\r\n", "a\r\nb", "\r\r", "\n\r", "]]\r"]
 BENIGN = "\u0101\u0113\u012b\u014d"                                # one private letter per hole; templates never contain them
 
 OPN = {1: "split_lines", 2: "fragment-helpers", 3: "ANSI", 4: "ANSI-interpolation", 5: "escape",
-       6: "HTML", 7: "HTML-interpolation", 8: "to_formatted_text", 9: "ANSI-plain-text", 10: "_ExplodedList", 11: "fragment_list_width", 12: "PygmentsTokens"}
+       6: "HTML", 7: "HTML-interpolation", 8: "to_formatted_text", 9: "ANSI-plain-text", 10: "_ExplodedList", 11: "fragment_list_width", 12: "PygmentsTokens",
+       13: "HTML-values-as-data", 14: "ANSI-sequence"}
 
 
 def xml_char(c):
@@ -67,7 +73,8 @@ def probe_cfg():
     zw = frs(lambda: ANSI("\x01a\x02\x01b\x02c")) == [(ZWE, "a"), (ZWE, "b"), ("", "c")]
     attr = frs(lambda: HTML('<style fg="a\xa0b">x</style>')) == "ValueError"
     brk = frs(lambda: HTML('<style bg="a[b">x</style>')) == "ValueError"
-    return [int(c1), int(dig), int(apos), int(xmlsafe), int(zw), int(attr), int(brk)]
+    cr = html_escape("a\r\n") == "a&#13;\n"
+    return [int(c1), int(dig), int(apos), int(xmlsafe), int(zw), int(attr), int(brk), int(cr)]
 
 
 # --------------------------------------------------------------------------
@@ -370,7 +377,7 @@ def impl_case(case, m=None):
             st = unS(case[1])
             return [S(fragment_list_to_text(frs)), fragment_list_len(frs), canon_frags(list(explode_text_fragments(frs))),
                     canon_frags(list(to_formatted_text(frs, style=st)))]
-        if k == 3:
+        if k in (3, 14):
             s = unS(case[1])
             return _markup(ANSI, lambda: ANSI(s))
         if k == 4:
@@ -401,7 +408,7 @@ def impl_case(case, m=None):
             s = unS(case[1])
             a = with_watchdog(lambda: ANSI(s), 5)
             return [S(to_plain_text(a)), [S(t) for st, t in a.__pt_formatted_text__() if ZWE in st]]
-        if k == 7:
+        if k in (7, 13):
             return run_template(HTML, [unS(p) for p in case[1]], [unS(v) for v in case[2]],
                                 (m or {}).get("specs"), (m or {}).get("raw"), (m or {}).get("pspecs"))
     except BaseException as e:  # noqa
@@ -537,7 +544,7 @@ def oracle_ansi(s, res):
 
 def html_unescape5(s):
     return (s.replace("&lt;", "<").replace("&gt;", ">").replace("&quot;", '"').replace("&apos;", "'")
-            .replace("&amp;", "&"))
+            .replace("&#13;", "\r").replace("&amp;", "&"))
 
 
 def oracle_escape(v, res):
@@ -556,7 +563,7 @@ def oracle_escape(v, res):
     if un != v and un != he2:
         return ("html_escape(%r) = %r does not unescape to the value" % (v, he),
                 {"op": "HTML-interpolation", "family": "escape-roundtrip"})
-    if "<" in he or '"' in he or re.search("&(?!(amp|lt|gt|quot|apos);)", he):
+    if "<" in he or '"' in he or re.search("&(?!(amp|lt|gt|quot|apos|#13);)", he):
         return ("html_escape(%r) = %r contains a markup character" % (v, he),
                 {"op": "HTML-interpolation", "family": "escape-leaves-markup"})
     return None
@@ -640,6 +647,7 @@ def _causes(kind):
         return [("unescaped-8bit-csi", lambda h, v: v.replace("\x9b", "a")),
                 ("unescaped-zero-width-marker", lambda h, v: v.replace("\x01", "a"))]
     return [("xml-invalid-char", lambda h, v: "".join(c if xml_char(c) else "a" for c in v)),
+            ("cr-line-end-normalised", lambda h, v: v.replace("\r", "a") if h == "t" else v),
             ("apos-in-single-quoted-attr", lambda h, v: v.replace("'", "a") if h == "s" else v),
             ("attr-unicode-space", lambda h, v: "".join("a" if (c.isspace() and c not in " \t\n\r") else c for c in v) if h != "t" else v),
             ("attr-style-marker", lambda h, v: v.replace("[", "a") if h != "t" else v)]
@@ -854,6 +862,43 @@ ANSI_SPECIALS = [
 ]
 
 
+# sequences of escapes: every sequence of <= 3 (thorough 4) tokens over this alphabet
+SEQ_TOKENS = ["a", "\x1b[1m", "\x1b[31m", "\x9b0m", "\x1b[2C", "\x9b;3C", "\x1bc", "\x01z\x02", "\x1b[5H", "\x1b[38;5;9m",
+              "\x1b[m", "\x1b[4;"]
+SEQ_TRUNCATED = "\x1b[4;"
+SEQ_CUF = {"\x1b[2C": "  ", "\x9b;3C": ""}             # `CSI n C` = n spaces (first parameter; empty = 0)
+SEQ_SILENT = {"\x1bc", "\x01z\x02", "\x1b[5H"}          # no visible output and no effect on the state
+
+
+def oracle_ansi_seq(toks, res):
+    """Only SGR sequences change the state, and ESC x / zero-width regions / unsupported sequences show nothing
+    (C18_ansi_state_only_sgr): dropping them leaves every visible fragment, with its style, as it was."""
+    from prompt_toolkit.formatted_text import ANSI
+    if res[0] != 0:
+        return None                                  # oracle_ansi (kind 3 sibling) reports a raise
+    if SEQ_TRUNCATED in toks[:-1]:
+        return None                                  # an unterminated sequence swallows what follows: the pieces are no longer the tokens
+    # cursor-forward shows its spaces in the style in effect (C18_ansi_cuf_after_sgr): the same input with the
+    # spaces written out gives the same fragments
+    if any(t in SEQ_CUF for t in toks):
+        ref = _markup(ANSI, lambda: ANSI("".join(SEQ_CUF.get(t, t) for t in toks)))
+        if ref != res:
+            return ("ANSI(%r): fragments %s, but with the cursor-forward sequences written as spaces: %s"
+                    % ("".join(toks), short(to_tuples(res[1]), 160), short(to_tuples(ref[1]) if ref[0] == 0 else ref, 160)),
+                    {"op": "ANSI", "family": "sequence-cursor-forward-style"})
+    kept = [t for t in toks if t not in SEQ_SILENT]
+    if kept == toks:
+        return None
+    ref = _markup(ANSI, lambda: ANSI("".join(kept)))
+    vis = [f for f in res[1] if ZWE not in unS(f[0])]
+    if ref[0] != 0 or vis != [f for f in ref[1] if ZWE not in unS(f[0])]:
+        return ("ANSI(%r): the visible fragments differ from those of %r (the same without ESC c / zero-width regions / "
+                "unsupported sequences): %s vs %s" % ("".join(toks), "".join(kept), short(to_tuples(vis), 160),
+                                                     short(to_tuples(ref[1]) if ref[0] == 0 else ref, 160)),
+                {"op": "ANSI", "family": "sequence-state"})
+    return None
+
+
 # --------------------------------------------------------------------------
 # case generation
 
@@ -874,6 +919,17 @@ def gen_cases(chk):
         cases.append(case)
         meta.append(m)
         dist[kind] = dist.get(kind, 0) + 1
+        if case and case[0] == 7:
+            # the values-as-data specification on the same template and values; the implementation result is the sibling's
+            cases.append([13, case[1], case[2]])
+            meta.append(dict(m or {}, same_as_prev=True))
+            k13 = "HTML-values-as-data/" + kind.split("/", 1)[-1]
+            dist[k13] = dist.get(k13, 0) + 1
+        if case and case[0] == 9:
+            cases.append([14, case[1]])
+            meta.append(None)
+            k14 = "ANSI-sequence/" + kind.split("/", 1)[-1]
+            dist[k14] = dist.get(k14, 0) + 1
 
     # ---- fragments
     ftexts = ["", "a", "\n", "a\n", "\nb", "a\nb", "\n\n", "ab"]
@@ -918,6 +974,10 @@ def gen_cases(chk):
             s = s[:rng.randint(0, len(s))]        # truncated
         add("ANSI/token-grammar", [3, S(s)])
         add("ANSI-plain-text/token-grammar", [9, S(s)])
+    for n in range((4 if thorough else 3) + 1):
+        for t in itertools.product(SEQ_TOKENS, repeat=n):
+            add("ANSI/token-sequences<=%d" % (4 if thorough else 3), [3, S("".join(t))])
+            add("ANSI-sequence/token-sequences<=%d" % (4 if thorough else 3), [14, S("".join(t))], {"toks": list(t)})
     for _ in range(20000 if thorough else 2000):
         add("ANSI/random", [3, S("".join(rng.choice(ANSI_ALPHA + ["0", "9", "5", "8", "2", "4", " ", "\u0663", "H"])
                                              for _ in range(rng.randint(6, 24))))])
@@ -1118,6 +1178,8 @@ def oracle_case(case, res, m):
     if k == 3:
         bad = oracle_ansi(unS(case[1]), res)
         return bad and (bad[0], dict(bad[1], op="ANSI"))
+    if k == 14:
+        return oracle_ansi_seq(m["toks"], res) if m and m.get("toks") else None
     if k == 5:
         return oracle_escape(unS(case[1]), res)
     if k in (4, 7):
@@ -1207,7 +1269,7 @@ def nontrivial(case, res):
         return isinstance(res, list) and len(res) > 1
     if k == 2:
         return isinstance(res, list) and len(res) == 4 and len(res[2]) > 0
-    if k in (3, 4, 6, 7, 8):
+    if k in (3, 4, 6, 7, 8, 13, 14):
         return isinstance(res, list) and len(res) == 2 and res[0] == 0 and len(res[1]) > 0
     if k == 9:
         return isinstance(res, list) and len(res) == 2 and res[0] != case[1]
@@ -1234,7 +1296,7 @@ def describe_case(case):
             return "split_lines(%s)" % short(to_tuples(case[1]), 120)
         if k == 2:
             return "helpers(style=%r, %s)" % (unS(case[1]), short(to_tuples(case[2]), 120))
-        if k in (3, 5, 6, 9):
+        if k in (3, 5, 6, 9, 14):
             return "%s(%s)" % (OPN[k], short(unS(case[1]), 120))
         if k == 11:
             return "fragment_list_width(%s)" % short(to_tuples(case[2]), 140)
@@ -1244,7 +1306,7 @@ def describe_case(case):
             return "_ExplodedList(%s) ops %s" % (short(to_tuples(case[1]), 80), short(case[2], 120))
         if k == 8:
             return "to_formatted_text(<value %s>, style=%r, auto_convert=%r)" % (short(case[3], 100), unS(case[1]), bool(case[2]))
-        if k in (4, 7):
+        if k in (4, 7, 13):
             tm, tf = templates_for([unS(p) for p in case[1]])
             return "%s(%s) %% %s" % ("ANSI" if k == 4 else "HTML", short(tm, 100), short(tuple(unS(v) for v in case[2]), 100))
     except Exception:  # noqa
@@ -1263,7 +1325,7 @@ def load_corpus_with_meta():
                 j = json.load(open(os.path.join(d, f)))
                 c = sx_norm(j["case"])
                 m = j.get("meta")
-                if c and c[0] in (4, 7, 8) and m is None:
+                if c and c[0] in (4, 7, 8, 13) and m is None:
                     raise SystemExit("corpus file %s: a case of kind %r needs its meta" % (f, c[0]))
                 cs.append(c)
                 ms.append(m)
@@ -1283,14 +1345,15 @@ def main(tier):
     # snapshot again is reported (and the oracle below supplies the failing inputs).
     variant = probe_cfg()
     chk.coverage["variant_probe"] = variant
-    if variant != [1] * 7:
+    if variant != [1] * 8:
         names = ["ansi_escape neutralises \\x9b \\001 \\002", "CSI parameters: ASCII digits, bounded int", "html_escape escapes '",
                  "html_escape neutralises characters XML cannot carry", "zero-width region returns to the top of the loop",
-                 "fg/bg guard rejects every whitespace character", "fg/bg guard rejects '['"]
+                 "fg/bg guard rejects every whitespace character", "fg/bg guard rejects '['",
+                 "html_escape writes \\r as &#13;"]
         lost = [n for n, b in zip(names, variant) if not b]
         chk.violation("tie", "/repo no longer behaves like the repaired code the model follows: " + "; ".join(lost),
                       {"kind": "variant-probe", "lost": ",".join(str(i) for i, b in enumerate(variant) if not b)},
-                      {"probe": variant, "expected": [1] * 7, "lost": lost,
+                      {"probe": variant, "expected": [1] * 8, "lost": lost,
                        "failing_input": "see the other replay files of this run"}, no_input=True)
     cases, meta, dist = gen_cases(chk)
     corpus, corpus_meta = load_corpus_with_meta()
@@ -1303,6 +1366,10 @@ def main(tier):
         if m and m.get("malformed"):
             impl_results.append(["MALFORMED"])
             chk.count_case(c, False)
+            continue
+        if m and m.get("same_as_prev"):
+            impl_results.append(impl_results[-1])        # kind 13: the kind-7 sibling's run (oracle already applied to it)
+            chk.count_case(c, nontrivial(c, impl_results[-1]))
             continue
         res = sx_norm(impl_case(c, m))
         impl_results.append(res)
@@ -1325,7 +1392,7 @@ def main(tier):
     # the model answers Err 3 outside its XML subset: those cases are not compared
     model_results = run_model("c18", cases)
     cmp_cases, cmp_impl, cmp_idx = [], [], []
-    outside = 0
+    outside = no_claim = claimed = 0
     for i, (c, a, mm, m) in enumerate(zip(cases, impl_results, model_results, meta)):
         if m and m.get("malformed"):
             if mm != [-999]:
@@ -1334,12 +1401,21 @@ def main(tier):
         if mm == [3]:
             outside += 1
             continue
+        if c and c[0] == 13:
+            if mm == [5]:
+                no_claim += 1                # a hole the specification makes no claim about
+                continue
+            claimed += 1
         cmp_cases.append(c)
         # [96, reference, %-conversion result]: the oracle has reported the %-conversion defect; the model
         # (template[escape(format(v, spec))]) is compared with the reference all format() variants agreed on
         cmp_impl.append(a[1] if (isinstance(a, list) and len(a) == 3 and a[0] in (96, 93)) else a)
         cmp_idx.append(i)
     chk.coverage["outside_modelled_xml_subset"] = outside
+    chk.coverage["values_as_data_spec"] = {"claimed_and_compared": claimed, "no_claim": no_claim}
+    if claimed == 0 or claimed < no_claim:
+        chk.violation("tie", "the values-as-data specification made a claim on only %d of %d template cases" % (claimed, claimed + no_claim),
+                      {"kind": "spec-vacuous"}, {"claimed": claimed, "no_claim": no_claim}, no_input=True)
 
     def tagger(c, a, m):
         return {"op": OPN.get(c[0], "?")}
@@ -1379,10 +1455,11 @@ def main(tier):
         "alignment/precision spec the model is given format(value, spec) computed by CPython and the engines get the raw value",
         "str.isdigit/int() are modelled from tables regenerated from the running CPython (decimal runs, non-decimal digits, int digit limit)",
         "mouse handlers / tuple tails are opaque ids carried unchanged",
-        "the model runs cfg_now only: the cfg_pinned branches (behind the `_pinned_refuted` theorems) and the `*_patched` definitions "
-        "(proposed patches not in /repo) are exercised by no case of this run",
-        "HTML theorems (whole template, plain text) are about normal-form templates (literal text written as html_escape writes it, "
-        "<name attr=QvQ> tags); raw > ' \" and &#N; in literals, spaces around '=', and <x/> are covered by correspondence + tree oracle only",
+        "the model runs cfg_now only: the cfg_pinned branches (behind the `_pinned_refuted` theorems) are exercised by no case of this run; "
+        "the `*_spec` / `*_listsem` definitions are specifications (escape each conversion's output; plain-list item assignment), tied to no code by nature",
+        "C18_html_whole_template / C18_html_plain_text are about normal-form templates; templates over arbitrary literal markup are covered by "
+        "C18_html_any_template / C18_html_values_as_data (specification run against the real code as case kind 13; no claim for a hole outside a data "
+        "position or a value with \\t \\n at an attribute hole: %d of %d this run) and C18_html_never_zero_width (every markup string)" % (no_claim, claimed + no_claim),
         "wcwidth (per-character widths sent with each case) and the % engine (an arbitrary conversion function) are parameters of the theorems",
     ]
     return chk.finish()
@@ -1414,5 +1491,7 @@ def replay(data):
     mm = run_model("c18", [case])[0]
     if isinstance(res, list) and len(res) == 3 and res[0] in (96, 93):
         res = res[1]
-    print("model agrees" if mm == res else ("model outside its XML subset" if mm == [3] else "model differs: %s" % short(mm, 400)))
+    print("model agrees" if mm == res else ("model outside its XML subset" if mm == [3] else
+                                            ("the values-as-data specification makes no claim here" if (mm == [5] and case[0] == 13) else
+                                             "model differs: %s" % short(mm, 400))))
     return rc
